@@ -76,8 +76,18 @@ def is_lin(v):
     return isinstance(v, Lin)
 
 
+def recs(it, kinds=None):
+    """final-pass yield records, then the records of the first ascending loop iterations (flagged
+    .early: local obligations are checked on them for REFUTED verdicts only)"""
+    for r in list(it.yields) + list(getattr(it, "early_yields", [])):
+        if kinds is None or r.kind in kinds:
+            yield r
+
+
 def tri(chk, rule, cons, res, run, rec, what):
     ok, why = res
+    if getattr(rec, "early", False) and ok is not False:
+        return ok
     cfg = run.cfg_text()
     chk.decide(rule, cons, ok, f"{what}: {why}" + (f" under {cfg}" if cfg else ""),
                rel=run.rel, node=rec.node)
